@@ -32,13 +32,16 @@ func TestVerifC15MultiRoute(t *testing.T) {
 		return
 	}
 	type mode struct {
-		multi  bool
-		listen string
+		multi   bool
+		listen  string
+		threads int
 	}
-	modes := []mode{{true, "0.0.0.0"}, {false, "0.0.0.0"}}
+	// (threads > 1: several sockets share the port, the kernel spreads the clients over them by their address and port - every one
+	// of the sockets has to behave like the first)
+	modes := []mode{{true, "0.0.0.0", 0}, {false, "0.0.0.0", 0}, {true, "0.0.0.0", 4}}
 	if pc6, err := net.ListenPacket("udp", "[::]:0"); err == nil {
 		pc6.Close()
-		modes = append(modes, mode{true, "[::]"}) // dual-stack wildcard: IPv4 clients arrive with IPv4-mapped addresses
+		modes = append(modes, mode{true, "[::]", 0}) // dual-stack wildcard: IPv4 clients arrive with IPv4-mapped addresses
 	} else {
 		rep.Note("no IPv6 wildcard socket here: dual-stack mode skipped")
 	}
@@ -55,7 +58,7 @@ func TestVerifC15MultiRoute(t *testing.T) {
 			port = pc.LocalAddr().(*net.UDPAddr).Port
 			pc.Close()
 			cfg := &Config{
-				Servers: []ServerConfig{{Protocol: "udp", Listen: fmt.Sprintf("%s:%d", md.listen, port), Udp: UdpConfig{MultiRoutes: multi}}},
+				Servers: []ServerConfig{{Protocol: "udp", Listen: fmt.Sprintf("%s:%d", md.listen, port), Udp: UdpConfig{MultiRoutes: multi, Threads: md.threads}}},
 				Rules:   []RuleConfig{{Reject: 3}},
 				Limiter: LimiterConfig{Client: ClientLimiterConfig{Limit: 1, Burst: 3}},
 			}
@@ -66,6 +69,40 @@ func TestVerifC15MultiRoute(t *testing.T) {
 		}
 		if err != nil {
 			rep.Violate("C15:multi-route:router-start", err.Error(), nil)
+			continue
+		}
+		if md.threads > 1 {
+			// 12 clients (12 source ports), one query each, to a non-default local address: every client gets its response (REFUSED
+			// counts: the subnet's burst is 3) on its connected socket, whichever of the listener's sockets the kernel gave it to
+			desc := fmt.Sprintf("listen %s multi_routes=%v threads=%d, 12 clients -> 127.0.0.2:%d", md.listen, multi, md.threads, port)
+			rep.Eval(desc)
+			var cs []net.Conn
+			for i := 0; i < 12; i++ {
+				c, err := net.Dial("udp", fmt.Sprintf("127.0.0.2:%d", port))
+				if err != nil {
+					rep.Note("cannot reach 127.0.0.2: " + err.Error())
+					break
+				}
+				cs = append(cs, c)
+				c.Write(refdns.Query(uint16(0x1600+i), refdns.N("mr", "example", "test"), 1, 1).Encode(false))
+			}
+			silent := 0
+			for i, c := range cs {
+				c.SetReadDeadline(time.Now().Add(3 * time.Second))
+				buf := make([]byte, 1500)
+				k, err := c.Read(buf)
+				if err != nil {
+					silent++
+				} else if m, derr := refdns.Decode(buf[:k]); derr != nil || m.ID != uint16(0x1600+i) {
+					rep.Violate("C15:multi-route:threads:wrong-response", desc, nil)
+				}
+				c.Close()
+			}
+			if silent > 0 {
+				rep.Violate("C15:multi-route:threads:no-response", fmt.Sprintf("%d of %d clients got no response from the address they asked: %s", silent, len(cs), desc), nil)
+			}
+			time.Sleep(3200 * time.Millisecond)
+			r.close(nil)
 			continue
 		}
 		for _, dst := range []string{"127.0.0.1", "127.0.0.2", "127.0.0.77"} {
